@@ -441,12 +441,13 @@ impl Formatter {
     } else {
       // Sections are numbered and underlined, sub-headings carry their number in parentheses.
       let numbers = [self.h2_num, self.h3_num, self.h4_num, self.h5_num, self.h6_num];
+      let text = self.inline_paragraph(&node.text);
       if level <= 2 {
-        format!("{}. {}\n-------------------------------------------------------------------------------\n", self.h2_num, node.to_string())
+        format!("{}. {}\n-------------------------------------------------------------------------------\n", numbers[0], text)
       } else {
         let depth = if level == 3 { 2 } else { (level as usize - 1).min(numbers.len()) };
         let number = numbers[..depth].iter().map(|n| n.to_string()).collect::<Vec<String>>().join(".");
-        format!("({}) {}\n", number, node.to_string())
+        format!("({}) {}\n", number, text)
       }
     }
   }
